@@ -34,10 +34,7 @@ def embed_pol(eng, selfv, args, kwargs, st, node):
     return [(st, g)]
 
 
-def counter_pol(eng, selfv, args, kwargs, st, node):
-    n = eng.fresh('count', z3.IntSort())
-    st.pc.append(n >= 0)
-    return [(st, V('seq', extra={'len': n, 'get': (lambda eng, i, st_: vint(i))}))]
+from vf.contracts.seq_common import counter_pol, counts, COUNT
 
 
 def since(trace, ordinal):
@@ -83,7 +80,7 @@ contract(F, 'Pser.__embed__', props=('C13',), params={'self': 'self', 'inval': '
                    lambda c: z3.BoolVal(c.resultv is c.st.env['inval']))],
          fields={'Pser': {'lst': lst_kind, 'offset': 'int', 'repeats': 'obj'}},
          loops={0: Loop(inv=one_embed(0, lambda c, L: (L.i - 1 + c.pre.self.offset) % c.pre.self.v('lst').extra['len']),
-                        kinds={'inval': 'obj', 'i': 'int'}, havoc_hook=remember_inval)},
+                        over=counts('repeats'), kinds={'inval': 'obj', 'i': 'int'}, havoc_hook=remember_inval)},
          class_modules={'Pser': F}, **common)
 
 # Pseq
@@ -93,7 +90,8 @@ contract(F, 'Pseq.__embed__', props=('C13',), params={'self': 'self', 'inval': '
          ensures=[('returns-the-threaded-input-value',
                    lambda c: z3.BoolVal(c.resultv is c.st.env['inval']))],
          fields={'Pseq': {'lst': lst_kind, 'offset': 'int', 'repeats': 'obj'}},
-         loops={0: Loop(inv=lambda c, L: z3.BoolVal(True), kinds={'inval': 'obj', '_': 'int', 'item': 'any'}),
+         loops={0: Loop(inv=lambda c, L: z3.BoolVal(True), over=counts('repeats'),
+                        kinds={'inval': 'obj', '_': 'int', 'item': 'any'}),
                 1: Loop(inv=one_embed(1, lambda c, L: c.pre.self.offset + L.i - 1),
                         kinds={'inval': 'obj', 'item': 'any'}, havoc_hook=remember_inval),
                 2: Loop(inv=one_embed(2, lambda c, L: L.i - 1),
